@@ -153,11 +153,17 @@ def check_bookkeeping(prog, res, fn, body_node, rule='L4', label=None):
     missing = []
     key_names = names_read(w.targets[0].slice)
     # a key held in a local: expand it
+    def key_def(name):
+      """the definition of a key local that reaches this write: the nearest
+      one above it"""
+      cands = [st for st in ast.walk(body_node)
+               if isinstance(st, ast.Assign) and dotted(st.targets[0]) == name
+               and st.lineno <= w.lineno]
+      return max(cands, key=lambda st: st.lineno) if cands else None
     if isinstance(w.targets[0].slice, ast.Name):
-      for st in ast.walk(body_node):
-        if isinstance(st, ast.Assign) and dotted(st.targets[0]) == \
-            w.targets[0].slice.id:
-          key_names |= names_read(st.value)
+      kd = key_def(w.targets[0].slice.id)
+      if kd is not None:
+        key_names |= names_read(kd.value)
     for lp in loops:
       for tn in ast.walk(lp.target):
         if isinstance(tn, ast.Name) and tn.id != '_':
@@ -179,11 +185,10 @@ def check_bookkeeping(prog, res, fn, body_node, rule='L4', label=None):
     elif isinstance(sl, ast.Constant):
       fam = sl.value
     elif isinstance(sl, ast.Name):
-      for st in ast.walk(body_node):
-        if isinstance(st, ast.Assign) and dotted(st.targets[0]) == sl.id and \
-            isinstance(st.value, ast.Tuple) and isinstance(
-                st.value.elts[0], ast.Constant):
-          fam = st.value.elts[0].value
+      st = key_def(sl.id)
+      if st is not None and isinstance(st.value, ast.Tuple) and isinstance(
+          st.value.elts[0], ast.Constant):
+        fam = st.value.elts[0].value
     callee = norm_text(proj.value.func)
     families.setdefault((d, fam), set()).add(callee)
   for (d, fam), callees in sorted(families.items(), key=str):
